@@ -307,7 +307,7 @@ func c13Gen(cfg config, emit func(Case)) {
 }
 
 func c13bGen(cfg config, emit func(Case)) {
-	n := 6
+	n := 16
 	if cfg.thorough {
 		n = 120
 	}
